@@ -435,8 +435,17 @@ def r7_minimal_columns(repo, report):
                     ext = False
         return base, ext
 
-    fb, fe = collect("fields")
-    hb, he = collect("header")
+    # the two lists by what they are, not by their names: the header holds only string literals, the fields do not
+    lists = {}
+    for n in ast.walk(mr):
+        if isinstance(n, ast.Assign) and len(n.targets) == 1 and isinstance(n.targets[0], ast.Name) and isinstance(n.value, ast.List) and len(n.value.elts) >= 5:
+            lists[n.targets[0].id] = all(isinstance(e, ast.Constant) and isinstance(e.value, str) for e in n.value.elts)
+    hnames = [k for k, v in lists.items() if v]
+    fnames = [k for k, v in lists.items() if not v]
+    if len(hnames) != 1 or len(fnames) != 1:
+        raise Unrecognised(f"minimal_report: header list {hnames} / field list {fnames} not identified", repo.loc(mr))
+    fb, fe = collect(fnames[0])
+    hb, he = collect(hnames[0])
     if not fb or not hb or fe in (None, False) or he in (None, False) or len(fb) != len(hb) or len(fe) != len(he):
         raise Unrecognised("minimal_report: 'fields' and 'header' lists (literal + paired extension of equal lengths) not found", repo.loc(mr))
     bad = []
